@@ -190,6 +190,7 @@ class State:
         s.world = clone(self.world, memo) if self.world is not None else None
         s.outcome = self.outcome
         s.trace = self.trace       # shared, append-only set semantics not needed per path
+        s.fork_memo = memo         # original object id -> its copy: lets a value computed before the fork be re-bound to the copy's objects
         return s
 
 
@@ -413,9 +414,15 @@ class Engine:
         m = re.match(r'^<(.+) as (.+)>::(\w+)$', name)
         if m:
             selfty, trait, meth = m.group(1).lstrip('&'), m.group(2), m.group(3)
+            short = selfty.split('::')[-1]
+            if meth == 'default' and trait == 'Default':
+                # derived / hand-written Default of a crate type: the body that returns that type
+                for n in self.by_last.get('default', []):
+                    if re.search(r'\) -> (\w+::)*%s\s*$' % re.escape(short), self.items[n][0].sig.strip().rstrip('{').strip()):
+                        return n
+                return None
             if meth in ('clone', 'eq', 'ne', 'to_owned', 'fmt', 'default'):
                 return None                                   # derived impls: structural models
-            short = selfty.split('::')[-1]
             for n in self.by_last.get(meth, []):
                 sig = self.items[n][0].sig
                 if 'impl at' in n and re.search(r'_1: &?(mut )?(\w+::)*%s[,)]' % re.escape(short), sig):
@@ -439,6 +446,10 @@ class Engine:
                     return n
                 if n == name or n.endswith('::' + name) or name.endswith('::' + n):
                     return n
+            # associated function without a receiver (`Type::make()`): the inherent-impl body that returns or takes the type
+            hits = [n for n in cands if 'impl at' in n and 'closure' not in n and re.search(r'\b%s\b' % re.escape(ty), self.items[n][0].sig)]
+            if len(hits) == 1:
+                return hits[0]
             return None
         return cands[0] if len(cands) == 1 and 'impl at' not in cands[0] else None
 
@@ -831,7 +842,9 @@ class Engine:
                             s2.pc.append(c)
                         if eff is not None:
                             eff(s2)
-                        self.finish_call(s2, s2.frames[-1], dest, v)
+                        # a returned value may point into the caller's state (`find` handing out an element): re-bind it to the copy
+                        self.finish_call(s2, s2.frames[-1], dest, clone(v, s2.fork_memo))
+                        s2.fork_memo = None
                         work.append(s2)
                     c, v, eff = outs[0]
                     if c is not True:
